@@ -492,3 +492,13 @@ ADDENDA_R11 = {
 ADDENDA_R11T = {
     "C15": ("R15.34", "a namespace definition never reopens a scope the parser is inside of (found F-C15ae: `namespace A { namespace A { int q; } }`, valid C++, never stopped writing)", "structural rule over the grammar action: walker start, step, comparison, drop, loop exits; gate on _alias_of in CPPNamespace::output"),
 }
+
+
+# Round 12 (a short round over the eight properties with the lowest arrival rates; DESIGN.md section 8).
+ADDENDA_R12 = {
+    "C05": ("R05.14", "every operator-name literal that is compared with a function name is a spelling the grammar's function_operator actions produce (or a prefix of one)", "literal-versus-producer table agreement, the table read from the generated parser"),
+    "C06": ("R06.19", "default template arguments are substituted with the map the filled-in arguments are inserted into, never a snapshot of it", "argument-identity rule over build_subst_decl"),
+    "C10": ("R10.14", "a class body starts private for `class` only: each grammar conditional that picks a visibility from the class key is evaluated for the three keys", "evaluation of the conditional over the finite enum"),
+    "C12": ("R12.13", "merge_from leaves through an unconditional reset of this database's by-name lookup tables", "must-pass-through"),
+    "C16": ("R16.8", "the loop discounting emitted libraries from a pending dependency set runs over the whole list", "loop-bound rule"),
+}
